@@ -151,6 +151,14 @@ class BaseNode(Node):
         """
         if node.keyword!='mod' and node.dtype!=self.dtype:
             raise Exception(f"Datatype {self.dtype} of node '{self.name}' cannot be changed to {node.dtype}")
+        if node.keyword=='mod' and (node.value_fn or node.value_expr):
+            # `name = (function)` / `name = ("expression")`: a modification without datatype is evaluated
+            # as the datatype of the node it modifies
+            typed = self.copy()
+            typed.value_fn, typed.value_expr = node.value_fn, node.value_expr
+            typed.units_raw = node.units_raw if node.units_raw else self.units_raw
+            typed.parse(env)
+            node.value_raw = typed.value_raw
         if self.value is None:  # create a dummy value if none
             self.set_value(node.value_raw)
         # copy value type modify values and units
